@@ -102,6 +102,17 @@ type Env struct {
 	funcs   map[*am.Func]int // identity -> scenario index
 	NConvs  int
 	nextGen int
+	// PhaseOf, when set, tells which phase (goroutine of a concurrent run) executes the calling body
+	PhaseOf func() int
+}
+
+func (e *Env) phase() int {
+	if e.PhaseOf != nil {
+		if p := e.PhaseOf(); p != 0 {
+			return p
+		}
+	}
+	return e.Phase
 }
 
 // TokOffset separates the token spaces of the two environments of a convert/call pair.
@@ -237,7 +248,7 @@ func (env *Env) buildReflect(idx int, fs FuncSpec, opts []am.Arg) (*am.Func, err
 		env.mu.Lock()
 		defer env.mu.Unlock()
 		env.Execs++
-		ex := EvExec{Ev: "exec", Fn: idx, Fin: cp(fs.In), Fout: cp(fs.Out), Args: []int{}, Outs: []int{}, Phase: env.Phase}
+		ex := EvExec{Ev: "exec", Fn: idx, Fin: cp(fs.In), Fout: cp(fs.Out), Args: []int{}, Outs: []int{}, Phase: env.phase()}
 		if inStruct {
 			s := args[0]
 			if inPtr {
@@ -330,7 +341,7 @@ func (env *Env) buildBuilt(idx int, fs FuncSpec, opts []am.Arg) (*am.Func, error
 		env.mu.Lock()
 		defer env.mu.Unlock()
 		env.Execs++
-		ex := EvExec{Ev: "exec", Fn: idx, Fin: cp(fs.In), Fout: cp(fs.Out), Args: []int{}, Outs: []int{}, Phase: env.Phase}
+		ex := EvExec{Ev: "exec", Fn: idx, Fin: cp(fs.In), Fout: cp(fs.Out), Args: []int{}, Outs: []int{}, Phase: env.phase()}
 		for _, v := range in.Values() {
 			ex.Args = append(ex.Args, IDOf(v.Value))
 		}
